@@ -399,7 +399,9 @@ func (txn *Txn[T]) Prefix(key index.Key) *Iterator[T] {
 		}
 		node = node.children[getBitAt(data, node.prefixLen())]
 	}
-	if node == nil {
+	if node == nil || matchLen < prefixLen {
+		// No node at or below the search prefix: either we ran out of nodes or
+		// the closest node diverges from the search prefix before its end.
 		return nil
 	}
 	return &Iterator[T]{start: node}
